@@ -12,6 +12,7 @@ var checks = map[string]func(*Ctx){
 	"C05": runC05,
 	"C06": runC06,
 	"C08": runC08,
+	"C09": runC09,
 	"C10": runC10,
 	"C11": runC11,
 	"C12": runC12,
